@@ -237,6 +237,7 @@ func TestC03(t *testing.T) {
 		// nothing inside an empty sub-object is ever demanded (reference walker as oracle)
 		rapid.Check(t, func(t *rapid.T) {
 			c := genC03Nested(t)
+			takeGenFlags()
 			if rapid.IntRange(0, 29).Draw(t, "deepChain") == 0 {
 				// an empty required field far down a chain of required / optional sub-objects
 				n := rapid.IntRange(20, 70).Draw(t, "chainLen")
